@@ -374,8 +374,13 @@ Definition agrees (t : trace) : bool :=
 Inductive ckind := CZero | CUnl | CNorm (i : Z).
 Definition ckind_of (s : bstate) : ckind :=
   if bs_max s =? 0 then CZero
-  else if bs_period s <? 0 then CUnl   (* a negative period means nothing: not judged *)
+  else if bs_period s <? 0 then CNorm 0
   else CNorm (Z.max 1 (Z.quot (bs_period s) (bs_max s))).
+(* CNorm 0: N >= 1 operations per negative period (in practice a period too long for
+   time.Duration that wrapped around).  No window bound can be read off such a period, but "a
+   fresh or reset bucket admits exactly N at once" and "one instant admits at most N" carry no
+   proviso on P: the bucket is judged at single instants only (open finding NEGP: the code makes
+   it unlimited). *)
 (* N >= 1 operations per period P with 0 <= P < N declare more than one operation per ns; the
    statement's bound divides by P/N = 0 there.  Such a bucket is judged as the tightest bucket
    that never exceeds the declared rate: interval 1 ns (window bound N + T + 1 <= N + T*N/P + 1),
@@ -555,7 +560,27 @@ Definition o_step (s : ostate) (e : ev) : option ostate :=
   | OSet k st found =>
       let exists_ := match aget key_eqb k (os_b s), aget N.eqb (fst k) (os_d s) with None, None => false | _, _ => true end in
       if negb (Bool.eqb found exists_) then None
-      else if found then Some (o_put s k (o_fresh st t)) else Some s
+      else if negb found then Some s
+      else
+        (* writing back the state GetBucketState has just reported is no override: the bucket's
+           history goes on (its windows are not restarted); it holds exactly N - taken *)
+        let identity := match aget key_eqb k (os_b s) with
+                        | Some r0 =>
+                            let r := o_touch t r0 in
+                            match o_get r with
+                            | Some (g, m) =>
+                                if o_known r && (m =? 0) && (bs_taken st =? g) && (bs_period st =? bs_period (o_cfg r))
+                                   && (bs_max st =? bs_max (o_cfg r))
+                                then Some (mkO true (o_cfg r) t (o_avail (o_fresh st t)) (o_adm r) (Some (g, 0)))
+                                else None
+                            | None => None
+                            end
+                        | None => None
+                        end in
+        match identity with
+        | Some r => Some (o_put s k r)
+        | None => Some (o_put s k (o_fresh st t))
+        end
   | OReset name st =>
       match aget N.eqb name (os_d s) with
       | None => Some s
